@@ -45,8 +45,10 @@ Inductive event :=
                                                        driver and the pending futures are NOT touched by the code: values accepted
                                                        before are still written, in order *)
 | Enable                                            (* enable() took effect *)
-| Discard (t : nat).                                (* an entry leaves the queue by any other way than the write loop's get() or
+| Discard (t : nat)                                 (* an entry leaves the queue by any other way than the write loop's get() or
                                                        the overflow rule: the code has no such step *)
+| ApiUnqueued (v : Z).                              (* patch_port_value answered 204/202 for v without handing it to the write
+                                                       queue: the code has no such step (every accepted value gets a ticket) *)
 
 Inductive wloop := WIdle | WTaken (v : Z) (t : nat) | WDriver (v : Z) (t : nat) | WUpdating.
 
@@ -178,6 +180,7 @@ Definition step_gen (guarded : bool) (cap : nat) (s : pstate) (e : event) : opti
   | Disable => if enabled s then Some (set_enabled s false) else None
   | Enable => if enabled s then None else Some (set_enabled s true)
   | Discard _ => None
+  | ApiUnqueued _ => None
   end.
 
 Definition step := step_gen true.
